@@ -44,11 +44,10 @@ def family_result(name, tier):
     vlib.run_recorders(rjobs, timeout=fam.get("record_timeout", 1200))
     log("[%s] recorded in %.1fs" % (name, time.time() - t1))
     t2 = time.time()
-    total = vlib.JudgeResult()
+    merged = vlib.merge_streams([out for _, out, _ in rjobs], os.path.join(wdir, name + ".all.ndjson"))
     for _, out, _ in rjobs:
-        r = vlib.judge_file(out, wdir, module=fam.get("judge", "Judge"))
-        total.merge(r)
         os.remove(out)
+    total = vlib.judge_file(merged, wdir, module=fam.get("judge", "Judge"))
     log("[%s] judged %d events in %.1fs: %s" % (name, total.events, time.time() - t2, dict(total.by_diag)))
     shutil.rmtree(wdir, ignore_errors=True)
     total.wall = time.time() - t0
@@ -96,9 +95,12 @@ def overflow_jobs(tier):
     if tier == "thorough":
         combos.append(("clang", "intrinsic"))
     for cc, path in combos:
-        # quick tier: clang covers a rotating half of the left operand types
+        # quick tier: gcc/intrinsic covers every left operand type, gcc/portable a rotating half,
+        # clang/portable a rotating third; thorough covers everything
         for lhs in range(10):
-            if tier == "quick" and cc == "clang" and (lhs + vlib.seed()) % 2:
+            if tier == "quick" and path == "portable" and cc == "gcc" and (lhs + vlib.seed()) % 2:
+                continue
+            if tier == "quick" and cc == "clang" and (lhs + vlib.seed()) % 3:
                 continue
             jobs.append(dict(src="h_overflow.cpp", cc=cc, tag="ovf-%s-%s-%d" % (cc, path, lhs),
                              defines=["LHS_INDEX=%d" % lhs, 'VERIF_PATH="%s"' % path,
@@ -120,6 +122,8 @@ FAMILIES = {
 }
 
 MCS = {
+    "overflow": dict(module="mc/MC_Overflow.tla", cfg_quick="mc/MC_Overflow_quick.cfg",
+                     cfg_thorough="mc/MC_Overflow_thorough.cfg", xmx="8g", timeout=2400),
 }
 
 # ---------------------------------------------------------------------------------------------
@@ -127,18 +131,35 @@ MCS = {
 
 CHECKS = {
     "C06": dict(
-        families=["overflow"], mcs=[],
+        families=["overflow"], mcs=["overflow"],
         rule="events = one tagged operation (operate<Op,Tag>, overflow_integer operators, convert<Tag,Dest>) on a pair of "
              "built-in integer types x operand values (8-bit lhs exhaustive x TLC boundary set; wider: TLC boundary set^2 + "
              "seeded random); non-trivial = exact result within 2 of a bound of the result type, or outside it",
         assumptions=["UBSan trap mode observes every UB the sanitizer knows; other UB is not observed",
-                     "trapping is observed in-process through the JOHNMCFARLANE_CNL_VERIF abort hook"]),
+                     "trapping is observed in-process through the JOHNMCFARLANE_CNL_VERIF abort hook"],
+        technique="TLA+ spec (SemOverflow ideal semantics + AsCodedOverflow as-coded model) checked by TLC: trace validation of "
+                  "recorded executions of the real templates + exhaustive small-machine model check (MC_Overflow)",
+        level_text="TLC evaluates the ideal overflow semantics (exact result vs. range of op_result, reaction per tag) on every "
+                   "recorded event of the real tagged operators for all 10x10 built-in type pairs, both detection paths, g++ and "
+                   "clang++; rejected events must additionally equal the as-coded model to count as the listed known findings. "
+                   "MC_Overflow proves on a scaled-down machine that the as-coded detection has no deviation outside those classes.",
+        level_note="bounded: 8-bit operands exhaustive (thorough), wider operands boundary^2 + seeded random; trusted: TLC, the "
+                   "BigInt module (self-tested against Python), UBSan trap mode, the recorder's encoding of integers"),
     "C07": dict(
-        families=["overflow"], mcs=[],
+        families=["overflow"], mcs=["overflow"],
         rule="same recorded events as C06; judged for totality: outcome class ub:<signal> / unreachable / timeout is never "
              "allowed under a checked tag; non-trivial = operands at the extremes or result near/outside the range",
         assumptions=["UB is observed through -fsanitize=undefined in trap mode (g++-12 and clang++-14); UB the sanitizer "
-                     "has no check for, and reachability in the compiled IR, are not observed"]),
+                     "has no check for, and reachability in the compiled IR, are not observed"],
+        technique="TLA+ spec checked by TLC: CxxInt models every C++ sub-expression of the overflow predicates with an explicit UB "
+                  "outcome (MC_Overflow, exhaustive small machine); trace validation of recorded executions (UBSan trap + "
+                  "abort/unreachable hook) rejects any ub/unreachable outcome the spec does not allow",
+        level_text="every recorded checked operation must end in a value or an overflow signal; outcome classes ub:<signal>, "
+                   "unreachable and timeout are rejected by the judge (the spec has no such action). The as-coded model evaluates "
+                   "each predicate sub-expression through CxxInt so UB inside the checker is a reachable model outcome; the model "
+                   "and the recorded executions agree event by event.",
+        level_note="dynamic observation only (no IR-level reachability); UB kinds limited to what -fsanitize=undefined traps; "
+                   "bounds as C06"),
 }
 
 
